@@ -136,6 +136,71 @@ def long_inputs():
     return out
 
 
+def sweep_inputs():
+    """statements whose expected entry is known by construction (no model involved): one configured macro with a
+    message in which a 2-, 3- or 4-byte character sits at every byte offset up to 40, alone or behind a key-value
+    -> [(text, char offset of the message body, char offset just after the opening bracket, has key-values)]"""
+    out = []
+    for ch in ("\u00e9", "\u2192", "\U0001F600"):
+        for k in range(0, 41):
+            msg = "a" * k + ch * 3 + "z"
+            for kv in ("", "k = 1; "):
+                head = "fn f() { test_macro!("
+                text = head + kv + '"' + msg + '"); }\n'
+                out.append((text, len(head) + len(kv) + 1, len(head), bool(kv)))
+    return out
+
+
+def ref_value_inputs():
+    """structured statements with an existing `ref` key whose value is / is not an unsigned integer literal; the
+    expectation comes from the property (C13), not from the model -> [(text, value text, id or None)]"""
+    out = []
+    for v, want in (("7", 7), ("007", 7), ("4294967295", 4294967295), ("  7  ", 7), ("0", 0),
+                    ("4294967296", None), ("7 as u64", None), ("40 + 2", None), ("3 * shard", None), ("7 - 1", None),
+                    ("x", None), ("x7", None), ("\"7\"", None), ("7.5", None), ("seven(7)", None)):
+        for after in ("", ", k = 1"):
+            out.append(('fn f() { test_macro!(ref = %s%s; "m"); }\n' % (v, after), v, want))
+            out.append(('fn f() { test_macro!(a = 1, ref = %s%s; "m"); }\n' % (v, after), v, want))
+    return out
+
+
+def constructed(verbose=False):
+    """the checks that need no encoder: constructed statements against expectations taken from the property"""
+    import native
+    runner = native.Runner()
+    n = 0
+    sweep, refsweep, panics = [], [], []
+    try:
+        for text, msg_at, paren_at, has_kv in sweep_inputs():
+            for structured in (False, True):
+                real = runner.find(text, structured=structured, macros=TEST_MACROS)
+                n += 1
+                if "panic" in real:
+                    panics.append((text, structured, real["panic"]))
+                    continue
+                want_char = paren_at if structured else msg_at
+                want = len(text[:want_char].encode("utf-8"))
+                got = [(e["pos"], e["reference"], e["kind"]) for e in real["entries"]]
+                if got != [(want, None, "StructuredNew" if structured else "String")]:
+                    sweep.append((text, structured, {"real": got, "expected_pos": want}))
+        for text, v, want in ref_value_inputs():
+            real = runner.find(text, structured=True, macros=TEST_MACROS)
+            n += 1
+            if "panic" in real:
+                panics.append((text, True, real["panic"]))
+                continue
+            ents = real["entries"]
+            ok = len(ents) == 1 and ents[0]["kind"] == "StructuredPreExisting" and ents[0]["reference"] == want
+            if ok and want is None:
+                ok = ents[0]["usable"] is False
+            if not ok:
+                refsweep.append((text, True, {"value": v, "expected_reference": want,
+                                              "real": [(e["pos"], e["reference"], e["kind"], e.get("usable")) for e in ents]}))
+    finally:
+        runner.close()
+    return {"compared": n, "sweep": sweep, "refsweep": refsweep, "panics": panics}
+
+
 def run(repo="/repo", verbose=False):
     import native
     src = model.Sources(repo)
@@ -144,6 +209,7 @@ def run(repo="/repo", verbose=False):
     diffs = []
     linecol = []
     panics = []
+    sweep = []
     skipped = 0
     try:
         for text in long_inputs():
@@ -174,6 +240,7 @@ def run(repo="/repo", verbose=False):
         runner.close()
     run.linecol = linecol
     run.panics = panics
+    run.sweep = sweep
     return n, skipped, diffs
 
 
